@@ -370,7 +370,7 @@ func c01LossSignalled(c *Ctx) {
 					for _, u := range *bo.Referrers() {
 						if iff, ok := u.(*ssa.If); ok {
 							for _, in2 := range iff.Block().Succs[0].Instrs {
-								if c2, ok := in2.(*ssa.Call); ok && c2.Call.StaticCallee() != nil && c2.Call.StaticCallee().Name() == "onStreamWriteError" {
+								if c2, ok := in2.(*ssa.Call); ok && isFn(c2.Call.StaticCallee(), "", "ServerSession.onStreamWriteError") {
 									okErr = true
 								}
 							}
